@@ -209,6 +209,9 @@ class Analyzer:
         #: subscripts reached by the (non-quiet) analysis under consistent
         #: facts
         self.visited: set[tuple[str, int, int]] = set()
+        #: optional callbacks (analyzer, state, array, {axis: index}, node)
+        self.load_hook: Any = None
+        self.store_hook: Any = None
         idx_arrays = {p for p, sp in contract.arrays.items()
                       if sp.get("scratch") or sp.get("store_cols")}
         self._idx_arrays = idx_arrays
@@ -696,8 +699,12 @@ class Analyzer:
                 self._store_range(st, arr, value)
             return View(arr, fixed, free)
         if store:
+            if self.store_hook is not None and not self.quiet:
+                self.store_hook(self, st, arr, fixed, e)
             self._store_col(st, e, arr, col, value)
             return None
+        if self.load_hook is not None and not self.quiet:
+            self.load_hook(self, st, arr, fixed, e)
         return self._load(st, arr, col)
 
     def _store_col(self, st: State, node: ast.AST, arr: Arr, col: int | None,
@@ -1276,7 +1283,36 @@ class Analyzer:
                 binds[tgt_v.id] = View(arr, fx, free[1:])
         return ZERO, hi, {"k": k, "ksym": ksym, "binds": binds}
 
+    def _dead_at_head(self, s: ast.For | ast.While) -> set[str]:
+        """Names assigned in the loop body before any read of them in the
+        body, and never read outside the loop: their value at the loop head
+        is irrelevant."""
+        key = ("dead", id(s))
+        memo = self._rel_memo
+        if key in memo:
+            return memo[key]
+        exposed = _upward_exposed(s.body)
+        if isinstance(s, ast.While):
+            exposed |= {n.id for n in ast.walk(s.test)
+                        if isinstance(n, ast.Name)}
+        assigned = set(self._carried(s.body))
+        inside = {id(n) for n in ast.walk(s)}
+        outside_reads = {n.id for n in ast.walk(self.cur.node)
+                         if isinstance(n, ast.Name) and isinstance(
+                             n.ctx, ast.Load) and id(n) not in inside}
+        dead = {v for v in assigned
+                if v not in exposed and v not in outside_reads}
+        memo[key] = dead
+        return dead
+
     def for_loop(self, states: list[State], s: ast.For) -> list[State]:
+        dead = self._dead_at_head(s)
+        if dead:
+            for st in states:
+                for v in dead:
+                    if v in st.vals:
+                        st.vals[v] = UNK
+            states = self._merge_equal(states)
         out: list[State] = []
         for st in states:
             out += self._for_one(st, s)
@@ -1321,6 +1357,12 @@ class Analyzer:
                     skip.add(lo - hi)          # zero iterations
                     if consistent(skip.facts):
                         res.append(skip)
+                    dead = self._dead_at_head(s)
+                    for e_ in entry:
+                        for v in dead:
+                            if v in e_.vals:
+                                e_.vals[v] = UNK
+                    entry = self._merge_equal(entry)
                     for e_ in entry:
                         res += self._loop_from(e_, s, lo + 1, hi, info)
                     return self._after_loop(res, s)
@@ -1469,6 +1511,9 @@ class Analyzer:
             for b in bases + ([k, k - 1, k + 1] if lo is not None else []):
                 cl += [("lo", b), ("hi", b)]
             keep = []
+            if lo0 == "empty":
+                keep = list(cl)      # no cell written yet: all bounds hold
+                cl = []
             for kind, b in cl:
                 be = b.subst(m_entry)
                 if kind == "lo" and lo0 is not None and entails(
@@ -1486,6 +1531,9 @@ class Analyzer:
                     head.vals[c] = sym[c]
                 for f in cands:
                     head.add(f)
+                if lo is not None:
+                    head.add(k - lo)
+                    head.add(hi - 1 - k)
                 for a in arrays:
                     if id(a) in rng_c:
                         head.set_rng(a, self._range_from(head, rng_c[id(a)]))
@@ -1502,10 +1550,13 @@ class Analyzer:
                         good = True
                         for c in carried:
                             v = e_.vals.get(c)
+                            cs = next(iter(sym[c].co))
                             if not isinstance(v, Lin):
-                                good = False
-                                break
-                            m[next(iter(sym[c].co))] = v
+                                if cs in f.co:
+                                    good = False
+                                    break
+                                continue
+                            m[cs] = v
                         if not good or not entails(e_.facts, f.subst(m)):
                             ok = False
                             break
@@ -1528,6 +1579,8 @@ class Analyzer:
                                 if isinstance(v, Lin):
                                     m[next(iter(sym[c].co))] = v
                             bb = b.subst(m)
+                            if r[0] == "empty":
+                                continue
                             if kind == "lo":
                                 if r[0] is None or not entails(
                                         e_.facts, r[0] - bb):
@@ -1550,6 +1603,9 @@ class Analyzer:
         final = st.copy()
         for f in cands:
             final.add(f)
+        if lo is not None:
+            final.add(k - lo)
+            final.add(hi - 1 - k)
         ranges = {aid: self._range_from(final, cl)
                   for aid, cl in rng_c.items()}
         return {"sym": sym, "facts": cands, "ranges": ranges}
@@ -1680,6 +1736,9 @@ class Analyzer:
             lo0, hi0, _, _ = st.rng(a)
             keep = []
             for b in bases:
+                if lo0 == "empty":
+                    keep += [("lo", b), ("hi", b)]
+                    continue
                 if lo0 is not None and entails(st.facts, lo0 - b):
                     keep.append(("lo", b))
                 if hi0 is not None and entails(st.facts, b - hi0):
@@ -1729,6 +1788,8 @@ class Analyzer:
                         ok = True
                         for e_ in ends + [head]:
                             r = e_.rng(a)
+                            if r[0] == "empty":
+                                continue
                             if kind == "lo" and (r[0] is None or not entails(
                                     e_.facts, r[0] - b)):
                                 ok = False
@@ -1763,6 +1824,63 @@ class Analyzer:
                             if isinstance(v, Arr) and _writes_param(r, i):
                                 out.add(v)
         return out
+
+
+def _upward_exposed(body: list[ast.stmt]) -> set[str]:
+    """Names that may be read in `body` before being (definitely) written
+    in the same pass through the body."""
+    exposed: set[str] = set()
+
+    def reads(e: ast.AST | None) -> set[str]:
+        return {n.id for n in ast.walk(e) if isinstance(n, ast.Name)
+                and isinstance(n.ctx, ast.Load)} if e is not None else set()
+
+    def block(stmts: list[ast.stmt], defined: set[str]) -> set[str]:
+        d = set(defined)
+        for s in stmts:
+            d = stmt(s, d)
+        return d
+
+    def stmt(s: ast.stmt, d: set[str]) -> set[str]:
+        nonlocal exposed
+        if isinstance(s, (ast.Assign, ast.AnnAssign)):
+            exposed |= reads(getattr(s, "value", None)) - d
+            for t in (s.targets if isinstance(s, ast.Assign)
+                      else [s.target]):
+                if isinstance(t, ast.Name):
+                    if getattr(s, "value", None) is not None:
+                        d = d | {t.id}
+                elif isinstance(t, ast.Tuple) and all(
+                        isinstance(x, ast.Name) for x in t.elts):
+                    d = d | {x.id for x in t.elts}
+                else:
+                    exposed |= reads(t) - d
+            return d
+        if isinstance(s, ast.AugAssign):
+            exposed |= (reads(s.value) | reads(s.target) | (
+                {s.target.id} if isinstance(s.target, ast.Name)
+                else set())) - d
+            return d
+        if isinstance(s, ast.If):
+            exposed |= reads(s.test) - d
+            a = block(s.body, d)
+            b = block(s.orelse, d)
+            return a & b
+        if isinstance(s, ast.For):
+            exposed |= reads(s.iter) - d
+            tg = {n.id for n in ast.walk(s.target)
+                  if isinstance(n, ast.Name)}
+            block(s.body, d | tg)
+            return d
+        if isinstance(s, ast.While):
+            exposed |= reads(s.test) - d
+            block(s.body, d)
+            return d
+        exposed |= reads(s) - d
+        return d
+
+    block(body, set())
+    return exposed
 
 
 class _WhileBody:
